@@ -421,13 +421,377 @@ def p_noncanonical(tv, pv, idx):
     return None
 
 
+# ------------------------------------------------------------------ one object used repeatedly (stale state)
+# Every predicate below keeps ONE object alive, interleaves queries (different arguments, different orders, the same
+# argument twice) with in-place edits of its public fields, and compares each answer with the independent BIP341
+# reference evaluated on the CURRENT public state (read through plain attribute access only).
+EVEN_VERSIONS = [0xc0, 0xc2, 0x02, 0xfe, 0x00, 0x66, 0xc4]
+
+
+def ref_leaf_hash(ver, raw):
+    return ref_tagged(b"TapLeaf", bytes([ver]) + ref_compact(len(raw)) + raw)
+
+
+def ref_path(tv, idx):
+    """sibling hashes, leaf to root, of leaf number idx (in-order) of a tree value"""
+    if tv[0] == 0:
+        return []
+    nl = len(tree_leaves(tv[1]))
+    if idx < nl:
+        return ref_path(tv[1], idx) + [ref_root(tv[2])]
+    return ref_path(tv[2], idx - nl) + [ref_root(tv[1])]
+
+
+def _leaf_objs(t):
+    if isinstance(t, TapLeaf):
+        return [t]
+    return _leaf_objs(t.left) + _leaf_objs(t.right)
+
+
+def _branch_objs(t):
+    if isinstance(t, TapLeaf):
+        return []
+    return [t] + _branch_objs(t.left) + _branch_objs(t.right)
+
+
+def p_reuse_tree(tv, pvs, seed, nops):
+    """ONE tree object: hash / external_pubkey / leaves / path_hashes / control_block asked repeatedly with different
+    keys and leaves, interleaved with in-place edits (phase A: also swaps / replacements of children, before the
+    leaf list was ever asked for; phase B: leaf version, leaf script object, leaf script commands)"""
+    import random
+    r = random.Random(seed)
+    tree = mk_tree(tv)
+    pts = [mk_point(pv) for pv in pvs]
+    fresh = [1000]
+
+    def new_script_value():
+        fresh[0] += 1
+        data = fresh[0].to_bytes(2, "big") + bytes(r.getrandbits(8) for _ in range(r.choice([0, 3, 18, 30, 74, 200])))
+        return [[data, 0x75, 0x51 + r.randrange(16)], []]
+
+    def q_hash(where):
+        cur = enc_tree(tree)
+        if tree.hash() != ref_root(cur):
+            return f"{where}: hash() of the reused tree differs from the BIP341 root of its current content"
+
+    def q_ext(where):
+        cur = enc_tree(tree)
+        k = r.randrange(len(pts))
+        got = tree.external_pubkey(pts[k])
+        if enc_point(got) != list(ref_output(pvs[k][0], ref_root(cur))):
+            return f"{where}: external_pubkey(key {k}) of the reused tree differs from the BIP341 output key"
+
+    def q_leaves(where):
+        got = tree.leaves()
+        want = _leaf_objs(tree)
+        if len(got) != len(want) or any(a is not b for a, b in zip(got, want)):
+            return f"{where}: leaves() is not the in-order leaf list of the current tree"
+
+    def q_path(where):
+        cur = enc_tree(tree)
+        lvs = tree_leaves(cur)
+        i = r.randrange(len(lvs))
+        arg = mk_leaf(lvs[i]) if r.random() < 0.5 else _leaf_objs(tree)[i]
+        got = tree.path_hashes(arg)
+        if got is None or list(got) != ref_path(cur, i):
+            return f"{where}: path_hashes(leaf {i}) differs from the sibling hashes of the current tree"
+
+    def q_cb(where):
+        cur = enc_tree(tree)
+        lvs = tree_leaves(cur)
+        i = r.randrange(len(lvs))
+        k = r.randrange(len(pts))
+        arg = mk_leaf(lvs[i]) if r.random() < 0.5 else _leaf_objs(tree)[i]
+        cb = tree.control_block(pts[k], arg)
+        if cb is None:
+            return f"{where}: no control block for leaf {i} of the current tree"
+        q = ref_output(pvs[k][0], ref_root(cur))
+        path = ref_path(cur, i)
+        px = pvs[k][0].to_bytes(32, "big")
+        if cb.tapleaf_version != lvs[i][0] or cb.parity != q[1] % 2 or list(cb.hashes) != path \
+                or cb.internal_pubkey.xonly() != px:
+            return f"{where}: control_block(key {k}, leaf {i}) fields differ from the current tree (version, parity, key, path)"
+        if cb.serialize() != bytes([lvs[i][0] + q[1] % 2]) + px + b"".join(path):
+            return f"{where}: control_block(key {k}, leaf {i}) serialisation differs from the current tree"
+        sc = mk_script(lvs[i][1])
+        if cb.merkle_root(sc) != ref_root(cur):
+            return f"{where}: control block of leaf {i} does not recompute the current merkle root"
+
+    def q_stranger(where, lv):
+        cur = enc_tree(tree)
+        if lv in tree_leaves(cur):
+            return None
+        if tree.path_hashes(mk_leaf(lv)) is not None and not isinstance(tree, TapLeaf):
+            return f"{where}: path_hashes answers for a leaf that is no longer in the tree"
+        if tree.control_block(pts[0], mk_leaf(lv)) is not None:
+            return f"{where}: control block handed out for a leaf that is no longer in the tree"
+
+    def e_leaf():
+        """in-place edit of one leaf; returns its former value (now a stranger)"""
+        leaf = r.choice(_leaf_objs(tree))
+        old = [leaf.tapleaf_version, enc_script(leaf.tap_script)]
+        k = r.randrange(3)
+        if k == 0:
+            leaf.tapleaf_version = r.choice([v for v in EVEN_VERSIONS if v != leaf.tapleaf_version])
+        elif k == 1:
+            leaf.tap_script = mk_script(new_script_value())
+        else:
+            fresh[0] += 1
+            leaf.tap_script.commands[0] = fresh[0].to_bytes(2, "big") + bytes(r.getrandbits(8) for _ in range(r.randrange(0, 40)))
+        return old
+
+    def e_struct():
+        bs = _branch_objs(tree)
+        if not bs:
+            return
+        b = r.choice(bs)
+        k = r.randrange(3)
+        if k == 0:
+            b.left, b.right = b.right, b.left
+        else:
+            sub = [0, r.choice(EVEN_VERSIONS), new_script_value()]
+            if r.random() < 0.4:
+                sub = [1, sub, [0, r.choice(EVEN_VERSIONS), new_script_value()]]
+            if k == 1:
+                b.left = mk_tree(sub)
+            else:
+                b.right = mk_tree(sub)
+
+    # phase A: the leaf list has not been asked for yet (TapBranch._leaves is a documented memo of the structure)
+    for step in range(nops // 3):
+        where = f"phase A step {step}"
+        k = r.random()
+        if k < 0.35:
+            d = q_hash(where)
+        elif k < 0.5:
+            d = q_ext(where)
+        elif k < 0.8:
+            e_struct()
+            d = q_hash(where + " (after a child was swapped/replaced)")
+        else:
+            e_leaf()
+            d = q_hash(where + " (after a leaf was edited)")
+        if d:
+            return d
+    # phase B: everything, structure fixed, leaves edited in place
+    for step in range(nops):
+        where = f"phase B step {step}"
+        k = r.random()
+        if k < 0.15:
+            d = q_hash(where)
+        elif k < 0.25:
+            d = q_ext(where)
+        elif k < 0.35:
+            d = q_leaves(where)
+        elif k < 0.55:
+            d = q_path(where)
+        elif k < 0.75:
+            d = q_cb(where)
+        else:
+            old = e_leaf()
+            where += " (after a leaf was edited)"
+            d = q_stranger(where, old) or r.choice([q_hash, q_path, q_path, q_cb])(where)
+        if d:
+            return d
+    return q_hash("end") or q_cb("end")
+
+
+def p_reuse_cb(cv, svs, pvs, seed, nops):
+    """ONE ControlBlock object (and reused Script objects): merkle_root / external_pubkey / serialize / == asked
+    repeatedly with different scripts, interleaved with edits of tapleaf_version, parity, internal_pubkey, hashes
+    (reassigned and mutated in place) and of the scripts' commands"""
+    import random
+    r = random.Random(seed)
+    cb = mk_cb(cv)
+    ver, par, pv, hashes = cv[0], cv[1], list(cv[2]), list(cv[3])
+    scripts = [mk_script(sv) for sv in svs]
+
+    def cur_root(k):
+        raw = ref_script(scripts[k].commands)
+        h = ref_leaf_hash(ver, raw)
+        for x in hashes:
+            h = ref_tagged(b"TapBranch", h + x if h < x else x + h)
+        return h
+
+    for step in range(nops):
+        where = f"step {step}"
+        k = r.random()
+        j = r.randrange(len(scripts))
+        if k < 0.25:
+            if cb.merkle_root(scripts[j]) != cur_root(j):
+                return f"{where}: merkle_root(script {j}) of the reused control block differs from the BIP341 recomputation"
+        elif k < 0.37:
+            q = cb.external_pubkey(scripts[j])
+            if enc_point(q) != list(ref_output(pv[0], cur_root(j))):
+                return f"{where}: external_pubkey(script {j}) of the reused control block differs from the BIP341 output key"
+        elif k < 0.5:
+            want = bytes([ver + par]) + pv[0].to_bytes(32, "big") + b"".join(hashes)
+            if cb.serialize() != want:
+                return f"{where}: serialize() of the reused control block differs from its current fields"
+            if not (cb == mk_cb([ver, par, pv, hashes])):
+                return f"{where}: the reused control block is not equal to a fresh one with the same fields"
+            if cb == mk_cb([ver, par ^ 1, pv, hashes]) or cb == mk_cb([ver, par, pv, hashes + [bytes(32)]]):
+                return f"{where}: the reused control block equals a control block with other fields"
+        elif k < 0.6:
+            ver = r.choice([v for v in EVEN_VERSIONS if v != ver])
+            cb.tapleaf_version = ver
+        elif k < 0.66:
+            par ^= 1
+            cb.parity = par
+        elif k < 0.74:
+            pv = list(r.choice([p for p in pvs if list(p) != pv]))
+            cb.internal_pubkey = mk_point(pv)
+        elif k < 0.92:
+            m = r.randrange(5)
+            h = bytes(r.getrandbits(8) for _ in range(32))
+            if m == 0:
+                hashes = [bytes(r.getrandbits(8) for _ in range(32)) for _ in range(r.randrange(0, 4))]
+                cb.hashes = list(hashes)
+            elif m == 1 or not hashes:
+                hashes.append(h)
+                cb.hashes.append(h)
+            elif m == 2:
+                hashes.pop()
+                cb.hashes.pop()
+            elif m == 3:
+                i = r.randrange(len(hashes))
+                hashes[i] = h
+                cb.hashes[i] = h
+            else:
+                hashes.reverse()
+                cb.hashes.reverse()
+        else:
+            scripts[j].commands[0] = bytes(r.getrandbits(8) for _ in range(r.randrange(1, 60)))
+    return None
+
+
+def p_reuse_key(secrets, roots, seed, nops):
+    """a few PrivateKey / S256Point objects used alternately: tweak / tweaked_key / p2tr_script / even_point /
+    even_secret asked with different merkle roots in different orders and twice in a row"""
+    import random
+    r = random.Random(seed)
+    privs = [PrivateKey(s) for s in secrets]
+    last = None
+    for step in range(nops):
+        if last is not None and r.random() < 0.25:
+            i, root, k = last                      # the same question twice
+        else:
+            i, root, k = r.randrange(len(privs)), r.choice(roots), r.randrange(7)
+        last = (i, root, k)
+        priv, P = privs[i], privs[i].point
+        where = f"step {step} (key {i}, root {root.hex()[:8] or 'empty'})"
+        px = P.x.num
+        t = ref_tagged(b"TapTweak", px.to_bytes(32, "big") + root)
+        if k == 0:
+            if P.tweak(root) != t:
+                return f"{where}: tweak differs from H_TapTweak(x || root)"
+        elif k == 1:
+            if enc_point(P.tweaked_key(root)) != list(ref_output(px, root)):
+                return f"{where}: tweaked_key differs from the BIP341 output key"
+        elif k == 2:
+            t2 = ref_tagged(b"TapTweak", px.to_bytes(32, "big") + root + b"x")     # an explicit tweak wins
+            want = ref_add(ref_lift_x(px), ref_mul(int.from_bytes(t2, "big"), G_))
+            if enc_point(P.tweaked_key(root, tweak=t2)) != list(want):
+                return f"{where}: tweaked_key(tweak=...) differs from even(P) + tG"
+        elif k == 3:
+            q = ref_output(px, root)
+            if list(P.p2tr_script(root).commands) != [0x51, q[0].to_bytes(32, "big")]:
+                return f"{where}: p2tr_script differs from OP_1 <x(Q)>"
+        elif k == 4:
+            ev = P.even_point()
+            if enc_point(ev) != list(ref_lift_x(px)) or P.xonly() != px.to_bytes(32, "big") or P.parity != P.y.num % 2:
+                return f"{where}: even_point / xonly / parity"
+        else:
+            tw = priv.tweaked_key(root)
+            e = secrets[i] if P.y.num % 2 == 0 else N_ - secrets[i]
+            if priv.even_secret() != e:
+                return f"{where}: even_secret"
+            if tw.secret != (e + int.from_bytes(t, "big")) % N_:
+                return f"{where}: tweaked secret differs from (even_secret + t) mod n"
+            if enc_point(tw.point) != list(ref_output(px, root)):
+                return f"{where}: tweaked private key is not the discrete log of the BIP341 output key"
+    return None
+
+
+def p_tagged_order(seq):
+    """module-level tagged hashes called in the given order with different tags (prefixes of each other, equal
+    lengths, repeated): each equals sha256(sha256(tag) || sha256(tag) || msg)"""
+    from buidl import hash as bh
+    named = {b"TapLeaf": bh.hash_tapleaf, b"TapBranch": bh.hash_tapbranch, b"TapTweak": bh.hash_taptweak,
+             b"TapSighash": bh.hash_tapsighash, b"BIP0340/challenge": bh.hash_challenge}
+    for n, (tag, msg) in enumerate(seq):
+        if bh.tagged_hash(tag, msg) != ref_tagged(tag, msg):
+            return f"call {n}: tagged_hash({tag!r}, ...) differs from the BIP340 tagged hash"
+        if tag in named and named[tag](msg) != ref_tagged(tag, msg):
+            return f"call {n}: the named tagged hash for {tag!r} differs from the BIP340 tagged hash"
+    return None
+
+
+def p_reuse_witness(items, pool, seed, nops):
+    """ONE Witness object: has_annex / control_block / tap_script / tap_leaf asked repeatedly, interleaved with
+    in-place edits of .items (append/pop an annex, replace an item, new list); each answer is compared with the
+    BIP341 selection rule applied to the current items"""
+    import random
+    r = random.Random(seed)
+    w = Witness(list(items))
+
+    def outcome(f):
+        try:
+            return f()
+        except Exception:
+            return ERR_
+
+    for step in range(nops):
+        where = f"step {step}"
+        cur = list(w.items)
+        annex = len(cur) >= 2 and len(cur[-1]) > 0 and cur[-1][0] == 0x50
+        k = r.random()
+        if k < 0.2:
+            if bool(w.has_annex()) != annex or len(w) != len(cur):
+                return f"{where}: has_annex/len of the reused witness differ from the BIP341 rule on its current items"
+        elif k < 0.4:
+            got = outcome(lambda: enc_cb(w.control_block()))
+            want = outcome(lambda: enc_cb(ControlBlock.parse(cur[-2] if annex else cur[-1])))
+            if got != want:
+                return f"{where}: control_block() of the reused witness is not the parse of the current control-block item"
+        elif k < 0.6:
+            got = outcome(lambda: w.tap_script().raw_serialize())
+            want = outcome(lambda: Script.parse(raw=(cur[-3] if annex else cur[-2])).raw_serialize())
+            if got != want:
+                return f"{where}: tap_script() of the reused witness is not the parse of the current script item"
+        elif k < 0.7:
+            got = outcome(lambda: w.tap_leaf().hash())
+            want = outcome(lambda: ref_leaf_hash(ControlBlock.parse(cur[-2] if annex else cur[-1]).tapleaf_version,
+                                                 Script.parse(raw=(cur[-3] if annex else cur[-2])).raw_serialize()))
+            if got != want:
+                return f"{where}: tap_leaf() of the reused witness differs from the current items"
+        else:
+            m = r.randrange(5)
+            if m == 0:
+                w.items.append(b"\x50" + bytes(r.getrandbits(8) for _ in range(r.randrange(0, 4))))
+            elif m == 1 and w.items:
+                w.items.pop()
+            elif m == 2 and w.items:
+                w.items[r.randrange(len(w.items))] = r.choice(pool)
+            elif m == 3:
+                w.items = [r.choice(pool) for _ in range(r.randrange(0, 4))]
+            else:
+                w.items.insert(r.randrange(len(w.items) + 1), r.choice(pool))
+    return None
+
+
+ERR_ = "raises"
+
+
 def classify(v):
     if v.get("kind") == "prop" and v.get("name") == "noncanonical" and "NONCANONICAL" in (v.get("detail") or ""):
         return "K-C12-leafhash-reserialised"
     return None
 
 
-PROPS = {k: _quiet(v) for k, v in {"annex": p_annex, "noncanonical": p_noncanonical, "tree": p_tree, "sibling": p_sibling, "priv_pub": p_priv_pub, "spend": p_spend,
+PROPS = {k: _quiet(v) for k, v in {"reuse_tree": p_reuse_tree, "reuse_cb": p_reuse_cb, "reuse_key": p_reuse_key,
+                                   "tagged_order": p_tagged_order, "reuse_witness": p_reuse_witness,
+                                   "annex": p_annex, "noncanonical": p_noncanonical, "tree": p_tree, "sibling": p_sibling, "priv_pub": p_priv_pub, "spend": p_spend,
                                    "tamper": p_tamper, "cb_codec": p_cb_codec}.items()}
 
 # ------------------------------------------------------------------ generators
@@ -667,3 +1031,39 @@ def generate(ctx):
     yield ("corr", "tweak", [[], ctx.rbytes(32)])
     yield ("corr", "pubkey", [0])
     yield ("corr", "pubkey", [N_])
+    # --- one object used repeatedly: stale memoised state (TapBranch._leaves, TAG_HASH_CACHE and any new cache)
+    for num, shape in enumerate([None, (None, None)] + [rand_shape(r, n) for n in (3, 4, 6, 8)[: ctx.n(4)]]
+                                + [rand_shape(r, r.randrange(2, 9)) for _ in range(ctx.n(1, 40))]):
+        tv = fill(shape, r, ctx)
+        pvs = [key_of_parity(r, 0)[1], key_of_parity(r, 1)[1]]
+        ctx.label("reuse/tree")
+        yield ("prop", "reuse_tree", [tv, pvs, r.getrandbits(30), ctx.n(18, 40)])
+    for num in range(ctx.n(4, 40)):
+        pvs = [key_of_parity(r, 0)[1], key_of_parity(r, 1)[1], key_of_parity(r, num % 2)[1]]
+        cv = [r.choice(EVEN_VERSIONS), r.randrange(2), pvs[num % 3], [ctx.rbytes(32) for _ in range(r.randrange(0, 4))]]
+        svs = [true_script(r, ctx, i, big=(i == 2)) for i in range(3)]
+        ctx.label("reuse/control-block")
+        yield ("prop", "reuse_cb", [cv, svs, pvs, r.getrandbits(30), ctx.n(40, 80)])
+    for num in range(ctx.n(2, 20)):
+        secrets = [key_of_parity(r, 0)[0], key_of_parity(r, 1)[0]] + ([N_ - 1] if num == 0 else [])
+        roots = [b"", ctx.rbytes(32), ctx.rbytes(32), bytes(32)]
+        ctx.label("reuse/keys")
+        yield ("prop", "reuse_key", [secrets, roots, r.getrandbits(30), ctx.n(24, 40)])
+    tags = [b"TapLeaf", b"TapBranch", b"TapTweak", b"TapSighash", b"BIP0340/challenge", b"TapLea", b"TapLeaf\x00",
+            b"", b"Tap", b"tapleaf", b"TapLeag", b"TapTweek", b"KeyAgg list", b"BIP0340/aux", b"BIP0340/nonce"]
+    for _ in range(ctx.n(6, 60)):
+        seq = [[r.choice(tags) if r.random() < 0.85 else ctx.rbytes(r.randrange(0, 12)), ctx.rbytes(r.randrange(0, 70))]
+               for _ in range(30)]
+        ctx.label("reuse/tagged-hash-order")
+        yield ("prop", "tagged_order", [seq])
+    for tv, pv, n in spend_cases[: ctx.n(4, 30)]:
+        lvs = tree_leaves(tv)
+        tree, P = mk_tree(tv), mk_point(pv)
+        pool = [b"", b"\x50", b"\x50\x01", b"\x51", ctx.rbytes(33), bytes([0xc0]) + G_[0].to_bytes(32, "big"),
+                bytes([0xc3]) + G_[0].to_bytes(32, "big") + ctx.rbytes(32), bytes([0x50]) + G_[0].to_bytes(32, "big")]
+        for lv in lvs[:3]:
+            pool.append(mk_leaf(lv).tap_script.raw_serialize())
+        cb = tree.control_block(P, mk_leaf(lvs[0]))
+        pool.append(cb.serialize())
+        ctx.label("reuse/witness")
+        yield ("prop", "reuse_witness", [[pool[-2] if len(lvs) > 1 else pool[8], pool[-1]], pool, r.getrandbits(30), ctx.n(60, 120)])
